@@ -174,8 +174,9 @@ func RunAsyncQueryForNewPipeline(conn *websocket.Conn, qid uint64, simpleNode *s
 	qc *structs.QueryContext, sizeLimit uint64, scrollFrom int,
 ) {
 	websocketR := make(chan map[string]interface{})
+	doneListening := make(chan struct{})
 
-	go listenToConnection(qid, websocketR, conn)
+	go listenToConnection(qid, websocketR, conn, doneListening)
 
 	go func() {
 		for {
@@ -192,6 +193,9 @@ func RunAsyncQueryForNewPipeline(conn *websocket.Conn, qid uint64, simpleNode *s
 
 	defer func() {
 		websocketR <- map[string]interface{}{"state": "exit"}
+		// nobody reads websocketR any more; let listenToConnection return instead of
+		// blocking forever on its next send (it sends once more when the connection closes)
+		close(doneListening)
 	}()
 
 	_, _, _, err := RunQueryForNewPipeline(conn, qid, simpleNode, aggs, timechartSimpleNode, timechartAggs, qc, sizeLimit)
@@ -205,7 +209,7 @@ func RunAsyncQueryForNewPipeline(conn *websocket.Conn, qid uint64, simpleNode *s
 	}
 }
 
-func listenToConnection(qid uint64, e chan map[string]interface{}, conn *websocket.Conn) {
+func listenToConnection(qid uint64, e chan map[string]interface{}, conn *websocket.Conn, done <-chan struct{}) {
 	for {
 		readEvent := make(map[string]interface{})
 		err := conn.ReadJSON(&readEvent)
@@ -215,10 +219,17 @@ func listenToConnection(qid uint64, e chan map[string]interface{}, conn *websock
 				log.Errorf("qid=%d, listenToConnection unexpected error: %+v", qid, err.Error())
 			}
 			cancelEvent := map[string]interface{}{"state": "cancel", "message": "websocket connection is closed"}
-			e <- cancelEvent
+			select {
+			case e <- cancelEvent:
+			case <-done:
+			}
 			return
 		}
-		e <- readEvent
+		select {
+		case e <- readEvent:
+		case <-done:
+			return
+		}
 	}
 }
 
